@@ -96,6 +96,8 @@ func (s *Scheduler) Step(ctx context.Context) StepState {
 		}
 		nextScheduled, ok := s.repo.NextScheduled()
 		if !ok || !nextScheduled.Equal(next.ScheduledAt) {
+			// The timer event is consumed. Let the next Step restart the timer.
+			s.setGetNextResult(def.Task{}, ErrScheduleStoppedOrChanged)
 			return StateNextTask(def.Task{}, ErrScheduleStoppedOrChanged)
 		}
 		s.setGetNextResult(next, nil)
